@@ -60,7 +60,7 @@ func (c17) Runs(t Tier) int {
 }
 func (c17) RecordWidths() map[string]int { return map[string]int{"ops": 3} }
 func (c17) RequiredProbes() []string {
-	return []string{"dir-cold", "dir-warm", "file-node", "two-tasks-parked-on-same-shard-cold", "length-concurrent-with-lookup", "iteration-concurrent-with-lookup", "readers-interleaved", "tasks>=4"}
+	return []string{"dir-cold", "dir-warm", "file-node", "plain-dir-node", "two-tasks-parked-on-same-shard-cold", "length-concurrent-with-lookup", "iteration-concurrent-with-lookup", "readers-interleaved", "tasks>=4"}
 }
 
 type c17Scenario struct {
@@ -186,7 +186,9 @@ func c17RunOp(n datamodel.Node, op c17op, y func()) string {
 func (c17) Run(ts *tape.Set, tier Tier) *Result {
 	res := &Result{Execs: 1}
 	shape := ts.T("shape")
-	isFile := shape.Pick(3, 2) == 1
+	nodePick := shape.Pick(3, 2, 1)
+	isFile := nodePick == 1
+	isPlain := nodePick == 2
 	nTasks := 2 + shape.Pick(4, 3, 2, 1, 1)
 	warm := shape.Intn(3) == 2
 	st := store.New()
@@ -204,6 +206,20 @@ func (c17) Run(ts *tape.Set, tier Tier) *Result {
 		root = r
 		sc.Node, sc.Spec = "file", spec.String()
 		res.probe("file-node")
+	} else if isPlain {
+		// a basic (unsharded) directory: one block, but possibly many links
+		n := []int{3, 40, 70, 150, 300}[shape.Intn(5)]
+		ents := map[string]cid.Cid{}
+		sizes := map[string]uint64{}
+		for i := 0; i < n; i++ {
+			nm := fmt.Sprintf("p%03d", i)
+			ents[nm] = gen.EntryTarget(st, nm)
+			sizes[nm] = 1
+			names = append(names, nm)
+		}
+		root = gen.WritePlainDir(st, ents, sizes, shape.Intn(2) == 0)
+		sc.Node, sc.Spec = "plain-dir", fmt.Sprintf("entries=%d", n)
+		res.probe("plain-dir-node")
 	} else {
 		maxN := 120
 		if tier == Thorough {
@@ -235,7 +251,10 @@ func (c17) Run(ts *tape.Set, tier Tier) *Result {
 	ops := ts.T("ops")
 	taskOps := make([][]c17op, nTasks)
 	var hotName string
-	if !isFile && len(names) > 0 {
+	if isPlain {
+		hotName = names[len(names)/2]
+	}
+	if !isFile && !isPlain && len(names) > 0 {
 		// a name deep in the trie: tasks looking it up at the same time park on the same shard
 		if m, err := dagmodel.BuildDir(st, root); err == nil {
 			best := -1
@@ -389,7 +408,7 @@ func (c17) Run(ts *tape.Set, tier Tier) *Result {
 		}
 	}
 	res.NonTrivial = interleaved
-	if sameShardCold && !warm && !isFile {
+	if sameShardCold && !warm && !isFile && !isPlain {
 		res.probe("two-tasks-parked-on-same-shard-cold")
 	}
 	kinds := map[string]int{}
